@@ -229,7 +229,7 @@ M("C19-write-after-check", "C19", "src/interrogate/interrogate.cxx",
   "        nout << \"Error writing \" << output_code_filename << \"\\n\";\n        status = -1;\n      }\n      output_code << \"\\n\";\n",
   expect="R19.o2|interrogate.cxx::main|output_code")
 M("C19-benign-not-operator", "C19", "src/interrogate/interrogate.cxx",
-  "      output_data.close();\n      if (output_data.fail()) {", "      output_data.flush();\n      if (!output_data) {",
+  "      output_data.close();\n      if (output_data.fail()) {", "      output_data.close();\n      if (!output_data) {",
   benign=True)
 M("C19-benign-exit-call", "C19", "src/interrogate/interrogate_module.cxx",
   "      nout << \"Unable to write to \" << output_code_filename << \"\\n\";\n      status = 1;", "      nout << \"Unable to write to \" << output_code_filename << \"\\n\";\n      exit(1);",
@@ -670,8 +670,12 @@ M("C02-benign-reorder-keywords", "C02", "src/interrogate/interfaceMakerPythonNat
 M("C19-bad-after-close", "C19", "src/interrogate/interrogate.cxx",
   "      output_text.close();\n      if (output_text.fail()) {", "      output_text.close();\n      if (output_text.bad()) {",
   expect="R19.o2|interrogate.cxx::main|output_text")
-M("C19-benign-bad-after-flush", "C19", "src/interrogate/interrogate.cxx",
+# (until round 5 this edit was listed as benign; S5-C19 showed it is not: the destructor's close(2) can fail unseen)
+M("C19-flush-and-test-but-never-close", "C19", "src/interrogate/interrogate.cxx",
   "      output_text.close();\n      if (output_text.fail()) {", "      output_text.flush();\n      if (output_text.bad()) {",
+  expect="R19.o2|interrogate.cxx::main|output_text|flush-then-test-after-last-write")
+M("C19-benign-flush-test-then-close-test", "C19", "src/interrogate/interrogate.cxx",
+  "      output_text.close();\n      if (output_text.fail()) {", "      output_text.flush();\n      if (output_text.bad()) {\n        status = -1;\n      }\n      output_text.close();\n      if (output_text.fail()) {",
   benign=True)
 M("C12-reader-stops-on-0xff", "C12", "src/interrogatedb/interrogate_datafile.cxx",
   "  while (length > 0) {\n    str += in.get();\n    length--;\n  }", "  while (length > 0) {\n    int ch = in.get();\n    if (ch == 0) {\n      break;\n    }\n    str += (char)ch;\n    length--;\n  }",
